@@ -3,7 +3,7 @@
 \* (name t or type) whose value ranges over a pool chosen to separate the eight operators,
 \* in HTML and XML documents, against [name], and [name op "val" flag] for every operator,
 \* operand and flag.  Also the id and class selectors against id / class attribute values.
-EXTENDS CssDecl, TLC, Json, SequencesExt
+EXTENDS Ir, TLC, Json, SequencesExt
 CONSTANTS MaxElems
 VARIABLE doc
 
@@ -39,4 +39,7 @@ Env == [nsmap |-> <<>>, scope |-> RootOf(doc)]
 Rel1(s) == {i \in Elems(doc) : Matches(doc, Env, <<Pool[s]>>, i)}
 Res == [s \in 1..Len(Pool) |-> MaskUpTo(Rel1(s), Len(doc.parent))]
 Emit == PrintT(ToJson([doc |-> doc, res |-> Res]))
+\* T-AlgoEqDecl: the implementation-shaped matcher over the compiled IR agrees with the declarative semantics
+AlgoEqDecl == \A s \in 1..Len(Pool) : \A i \in Elems(doc) :
+                 AlgoMatches(doc, Env, <<Pool[s]>>, i) = Matches(doc, Env, <<Pool[s]>>, i)
 =============================================================================
